@@ -73,12 +73,15 @@ class _Lock:
 
 
 def _prune():
-    """keep the two most recently used source hashes"""
+    """keep the two most recently used source hashes, and anything touched within the last hour (a concurrent
+    run against another tree may be building there right now)"""
     try:
+        import time
         dirs = [d for d in glob.glob(os.path.join(BUILD, "*")) if os.path.isdir(d)]
         dirs.sort(key=lambda d: os.path.getmtime(d), reverse=True)
         for d in dirs[2:]:
-            shutil.rmtree(d, ignore_errors=True)
+            if time.time() - os.path.getmtime(d) > 3600:
+                shutil.rmtree(d, ignore_errors=True)
     except Exception:
         pass
 
